@@ -153,6 +153,11 @@ def classify(gen, res, unit):
         detail += " ; callee precondition: " + callee_pre[0]["text"][:160]
       fails.append({"name": "%s.safety" % fnname, "props": list(unit.safety_props), "msg": msg, "fn": fnname,
                     "clause": detail, "spans": others, "rendered": rendered, "src": "%s:%s" % (org.get("file"), org.get("line"))})
+    elif kind in ("ensures", "invariant", "hint", "loop_ensures"):
+      # unnamed auxiliary clause of an extracted function: counts against the function's aggregate obligation
+      fnname = org.get("fn")
+      fails.append({"name": "%s.safety" % fnname, "props": list(unit.safety_props), "msg": msg, "fn": fnname,
+                    "clause": "auxiliary %s `%s`: %s" % (kind, org.get("text"), msg), "spans": others, "rendered": rendered})
     elif kind in ("requires", "kw"):
       undec.append({"msg": msg, "at": org, "rendered": rendered})
     else:
